@@ -23,6 +23,7 @@ result per case:
 All floats travel through JSON (repr round trip = exact).
 """
 import json
+import signal
 import sys
 import traceback
 
@@ -32,6 +33,14 @@ from distance3d import colliders as C
 from distance3d import gjk as G
 from distance3d import mesh as M
 from pytransform3d.transform_manager import TransformManager
+
+
+class CaseTimeout(BaseException):
+    """raised by SIGALRM: one case exceeded its (generous) wall-clock allowance"""
+
+
+def _on_alarm(signum, frame):
+    raise CaseTimeout()
 
 
 def arr44(p):
@@ -152,6 +161,8 @@ def tolist(x):
 def guarded(f):
     try:
         return dict(exc=None, r=tolist(f()))
+    except CaseTimeout:
+        raise
     except BaseException as e:  # noqa
         return dict(exc=type(e).__name__, r=None, msg=str(e)[:160])
 
@@ -245,6 +256,8 @@ def run_case(case):
         out["fresh"] = battery(f, case)
         # the fresh object must not have been disturbed through aliasing with `last`
         out["last_pose_after"] = np.asarray(last, dtype=float).reshape(-1).tolist()
+    except CaseTimeout:
+        raise
     except BaseException as e:  # noqa
         out["harness_exc"] = type(e).__name__
         out["harness_msg"] = str(e)[:300]
@@ -254,7 +267,18 @@ def run_case(case):
 
 def main():
     payload = json.load(open(sys.argv[1]))
-    res = [run_case(c) for c in payload["cases"]]
+    limit = int(payload.get("case_limit_s", 0))
+    signal.signal(signal.SIGALRM, _on_alarm)
+    res = []
+    for k, c in enumerate(payload["cases"]):
+        # the first case of a worker also pays for loading / compiling the numba functions
+        signal.alarm(limit * (4 if k == 0 else 1) if limit else 0)
+        try:
+            res.append(run_case(c))
+        except CaseTimeout:
+            res.append(dict(harness_exc="CASE-TIMEOUT", harness_msg=f"case exceeded {limit} s inside the worker"))
+        finally:
+            signal.alarm(0)
     json.dump(dict(results=res), open(sys.argv[2], "w"))
 
 
